@@ -1,6 +1,6 @@
 (* Concrete histories for C18: a non-vacuity example (selections, a service with automatic
-   addresses, an interface that goes away and one that shows up later) and the witnesses of the
-   two findings (known/C18.json; replays in corpus/C18.cases). *)
+   addresses, an interface that goes away and one that shows up later), the witness of the
+   finding that stays (known/C18.json) and of the repaired one; replays in corpus/C18.cases. *)
 From Coq Require Import List NArith Bool String.
 From Mdns Require Import Res Bytes Rec Intf IntfCache Responder IntfDaemon C18Spec ResponderWitness.
 Import ListNotations.
@@ -31,7 +31,7 @@ Definition h_ok : list step :=
 Definition os_ok : list iface := [e_eth0_v4; e_eth0_v6; e_eth1_v4].
 
 Definition count_sent (l : list (list obs)) : nat :=
-  List.length (List.filter (fun o => match o with OSent _ => true | OSentAny _ => true | _ => false end) (List.concat l)).
+  List.length (List.filter (fun o => match o with OSent _ => true | _ => false end) (List.concat l)).
 Definition count_ipev (l : list (list obs)) : nat :=
   List.length (List.filter (fun o => match o with OIpAdd _ => true | OIpDel _ => true | _ => false end) (List.concat l)).
 
@@ -53,25 +53,18 @@ Definition h_absent : list step :=
 Lemma h_absent_refutes : chk_C18 os_w2 (model_history t0 os_w2 h_absent) = false.
 Proof. vm_compute. reflexivity. Qed.
 
-(* ---- finding: the repeated goodbye leaves wherever the IPv4 socket was last pointed at ------------ *)
+(* ---- repaired (694086c): the repeated goodbye leaves through the interface it was built for ---- *)
 Definition os_w1 : list iface := [e_eth0_v4; e_eth1_v4].
 Definition h_goodbye : list step :=
   [ mkStep t0 None [] [CRegister (c18_svc "Svc0" [ip4 192 168 1 10; ip4 10 2 0 10]) false];
     mkStep (t0 + 2000) None [] [CUnregister (lower (b "Svc0._http._tcp.local."))];
     mkStep (t0 + 2200) None [] [] ].
 
-(* the model leaves the interface of a repeated goodbye open (OSentAny); `through j` is the
-   observation when the socket happened to point at interface j *)
-Definition through (j : N) (o : obs) : obs :=
-  match o with
-  | OSentAny p => OSent (mkPacket (p_dest p) j (p_id p) (p_flags p) (p_questions p) (p_answers p) (p_additionals p))
-  | _ => o
-  end.
-Definition history_through (j : N) (h : list (step * list obs)) : list (step * list obs) :=
-  List.map (fun so => (fst so, List.map (through j) (snd so))) h.
+(* the interfaces the packets of the last iteration (the two repeated goodbyes) leave on *)
+Definition last_ifs (l : list (list obs)) : list N :=
+  flat_map (fun o => match o with OSent p => [p_if p] | _ => [] end) (List.last l []).
 
-Lemma h_goodbye_refutes :
+Lemma h_goodbye_checked :
   chk_C18 os_w1 (model_history t0 os_w1 h_goodbye) = true /\
-  chk_C18 os_w1 (history_through 3 (model_history t0 os_w1 h_goodbye)) = false /\
-  chk_C18 os_w1 (history_through 2 (model_history t0 os_w1 h_goodbye)) = false.
-Proof. repeat split; vm_compute; reflexivity. Qed.
+  last_ifs (run (initial_state t0 os_w1) h_goodbye) = [2; 3].
+Proof. split; vm_compute; reflexivity. Qed.
